@@ -103,7 +103,7 @@ func (s SignatureVerifier) verifySignature(data []byte, sig DigitallySigned) err
 			return fmt.Errorf("failed to unmarshal ECDSA signature: %v", err)
 		}
 		if len(rest) != 0 {
-			log.Printf("Garbage following signature %v", rest)
+			return fmt.Errorf("garbage following ECDSA signature: %v", rest)
 		}
 
 		if !ecdsa.Verify(ecdsaKey, hash, ecdsaSig.R, ecdsaSig.S) {
